@@ -529,6 +529,15 @@ fn ill_formed(h: &H, idx: u64, rng: &mut Rng) {
         "stack push=a".into(),
         "stack flip=1,,2".into(),
     ];
+    // two sub-commands in one step, in every combination and order
+    let subs = ["push=1,2", "pop=1,2", "flip=1,2", "roll=3,1", "unroll=3,1", "swap", "drop"];
+    for a in subs {
+        for b in subs {
+            if a != b {
+                bad.push(format!("stack {a} {b}"));
+            }
+        }
+    }
     // random ill-formed variations
     for _ in 0..8 {
         let m = rng.int(-3, 9);
